@@ -79,6 +79,8 @@ type Options struct {
 	SpanOne        bool `json:"span_one,omitempty"`        // write <w:gridSpan w:val="1"/> on unmerged cells (17.4.17: 1 is the default)
 	BulletPUA      bool `json:"bullet_pua,omitempty"`      // bullets as U+F0B7 in font Symbol (what Word writes) instead of U+2022
 	NumIDShift     int  `json:"num_id_shift,omitempty"`    // numId of list i is i+1+NumIDShift (17.9.18: any positive integer)
+	OmitIlvl0      bool `json:"omit_ilvl0,omitempty"`      // list items of depth 0 omit w:ilvl (17.9.3: level 0 is assumed when absent)
+	NoTcPr         bool `json:"no_tc_pr,omitempty"`        // unmerged cells carry no w:tcPr at all (17.4.70: optional)
 	TableStyle     bool `json:"table_style,omitempty"`     // tables reference a TableGrid style and carry w:tblLook
 	ItemStyle      bool `json:"item_style,omitempty"`      // list paragraphs carry pStyle ListParagraph (as Word does)
 
@@ -112,8 +114,22 @@ func GenOptions(t *rapid.T) Options {
 	o.SpanOne = rapid.IntRange(0, 3).Draw(t, "span_one") == 3
 	o.BulletPUA = rapid.Bool().Draw(t, "bullet_pua")
 	o.NumIDShift = rapid.SampledFrom([]int{0, 0, 4, 10}).Draw(t, "numid_shift")
+	o.OmitIlvl0 = rapid.Bool().Draw(t, "omit_ilvl0")
+	o.NoTcPr = rapid.Bool().Draw(t, "no_tcpr")
 	o.TableStyle = rapid.Bool().Draw(t, "table_style")
 	o.ItemStyle = rapid.Bool().Draw(t, "item_style")
+	if rapid.IntRange(0, 3).Draw(t, "extras") == 3 {
+		// parts Word writes besides the ones tabula reads, and a directory entry
+		o.Extra = []wpmodel.Member{
+			{Name: "word/theme/theme1.xml", Data: []byte(`<?xml version="1.0" encoding="UTF-8" standalone="yes"?><a:theme xmlns:a="http://schemas.openxmlformats.org/drawingml/2006/main" name="Office"/>`)},
+			{Name: "docProps/thumbnail.jpeg", Data: []byte{0xFF, 0xD8, 0xFF, 0xD9}},
+			{Name: "customXml/item1.xml", Data: []byte(`<?xml version="1.0"?><root><p>not a paragraph</p></root>`)},
+			{Name: "customXml/"},
+		}
+		if o.Order != nil {
+			o.Order = rapid.Permutation([]int{0, 1, 2, 3, 4, 5, 6, 7, 8, 9, 10, 11, 12, 13, 14, 15}).Draw(t, "order_extras")
+		}
+	}
 	return o
 }
 
@@ -277,6 +293,14 @@ func (w *writer) parts() []wpmodel.Member {
 	ct.Open("Types", "xmlns", NsCT)
 	ct.Empty("Default", "Extension", "rels", "ContentType", "application/vnd.openxmlformats-package.relationships+xml")
 	ct.Empty("Default", "Extension", "xml", "ContentType", "application/xml")
+	seenExt := map[string]bool{"rels": true, "xml": true}
+	for _, m := range w.o.Extra {
+		// OPC §10.1.2.2.2: every part needs a content type; extras get a Default by extension
+		if i := strings.LastIndex(m.Name, "."); i >= 0 && !strings.HasSuffix(m.Name, "/") && !seenExt[m.Name[i+1:]] {
+			seenExt[m.Name[i+1:]] = true
+			ct.Empty("Default", "Extension", m.Name[i+1:], "ContentType", "application/octet-stream")
+		}
+	}
 	for _, v := range overrides {
 		ct.Empty("Override", "PartName", v.part, "ContentType", v.ct)
 	}
@@ -394,7 +418,9 @@ func (w *writer) paragraph(x *wpmodel.XW, b wpmodel.Block, idx int) {
 		}
 		if num {
 			x.Open(w.e("numPr")) // 17.3.1.19
-			x.Empty(w.e("ilvl"), w.a("val"), strconv.Itoa(b.Depth))
+			if b.Depth > 0 || !w.o.OmitIlvl0 {
+				x.Empty(w.e("ilvl"), w.a("val"), strconv.Itoa(b.Depth))
+			}
 			x.Empty(w.e("numId"), w.a("val"), strconv.Itoa(w.o.NumID(b.List)))
 			x.Close(w.e("numPr"))
 		}
@@ -460,6 +486,9 @@ func (w *writer) runs(x *wpmodel.XW, p wpmodel.Para, body bool) {
 	}
 	if noise && len(p) > 0 {
 		x.Empty(w.e("bookmarkEnd"), w.a("id"), strconv.Itoa(w.nbm))
+		x.Open(w.e("r")) // a run without content (17.3.2.25: all children optional)
+		x.Empty(w.e("rPr"))
+		x.Close(w.e("r"))
 	}
 }
 
@@ -555,8 +584,11 @@ func (w *writer) table(x *wpmodel.XW, t *wpmodel.Table) {
 		for c := 0; c < t.Cols; {
 			cell := t.Cells[g[r][c]]
 			x.Open(w.e("tc")) // 17.4.66
-			x.Open(w.e("tcPr"))
-			x.Empty(w.e("tcW"), w.a("w"), strconv.Itoa(1870*cell.CS), w.a("type"), "dxa")
+			plain := cell.CS == 1 && cell.RS == 1 && w.o.NoTcPr && !w.o.SpanOne
+			if !plain {
+				x.Open(w.e("tcPr"))
+				x.Empty(w.e("tcW"), w.a("w"), strconv.Itoa(1870*cell.CS), w.a("type"), "dxa")
+			}
 			if cell.CS > 1 || w.o.SpanOne {
 				x.Empty(w.e("gridSpan"), w.a("val"), strconv.Itoa(cell.CS)) // 17.4.17
 			}
@@ -571,7 +603,9 @@ func (w *writer) table(x *wpmodel.XW, t *wpmodel.Table) {
 					x.Empty(w.e("vMerge"))
 				}
 			}
-			x.Close(w.e("tcPr"))
+			if !plain {
+				x.Close(w.e("tcPr"))
+			}
 			if r == cell.R {
 				for _, p := range cell.Paras {
 					x.Open(w.e("p"))
